@@ -78,6 +78,14 @@ func (e *Engine) callStatic(fr *Frame, st *State, callee *ssa.Function, args []V
 	if ct := e.w.contracts[key]; ct != nil && !ct.Inline {
 		return e.callContract(fr, st, callee, ct, key, args, callee.Signature, rt, pos, false), true
 	}
+	if fr != nil && fr.top && e.contract != nil && len(e.contract.Asserts) > 0 && e.quiet == 0 {
+		// assert_at may also name a call that is inlined or modelled
+		short := key
+		if i := strings.LastIndex(key, "/"); i >= 0 {
+			short = key[i+1:]
+		}
+		e.ghostAsserts(fr, st, short, e.ordinal("call "+short), pos)
+	}
 	if v, ok := e.stdModel(st, key, args, rt); ok {
 		return v, true
 	}
